@@ -18,6 +18,9 @@ import os, re
 import runner as R
 from props import *
 
+# for C01: `import kernel_part`, add kernel_part.LEAN_MODULES to the check's LEAN_MODULES and call kernel_part.parts(ctx)
+LEAN_MODULES = ['C01b']
+
 # which verdicts of the log predicates belong to which property
 VERDICTS = {
     'C01': {'grammar'},
@@ -130,3 +133,9 @@ def kernel_part(ctx, prop=None, lean_module=None):
                      'sync.Mutex / atomic.LoadInt32 / CompareAndSwapInt32 / a capacity-1 channel behave as in the Go memory model (sequentially consistent atomics, mutual exclusion)',
                      'concurrent schedules of the real subscriber are sampled (stress with yields), not enumerated: for them the tie is program equality (F), the stress run is a search'],
         extra={'distribution': ctx.dist})
+
+
+def parts(ctx):
+    """the C01(b) part, for tools/checks/C01.py (its LEAN_MODULES must include kernel_part.LEAN_MODULES;
+    when it does not, pass lean_module='C01b' to kernel_part instead)"""
+    return kernel_part(ctx, 'C01')
